@@ -596,5 +596,9 @@ def run(chk):
     check_lexer(chk, F, emitted)
     from . import decoder
     decoder.check_decoder(chk, F)
+    # the decoder builds its leaves with the typed constructors (expr_raw_pkh for every key-hash leaf ...): a leaf carrying
+    # another type than type_check gives it makes the decoder accept scripts that are not miniscripts (shared with C05)
+    from . import ctors
+    chk.guard("R04.7", "typed-constructors", ctors.check_typed_constructors, chk, F, "R04.7")
     chk.guard("R04.5", "decoder-canonical", decoder.check_decoder_canonical, chk, F)
     chk.guard("R04.6", "key-pushes", check_key_pushes, chk, F)
